@@ -158,12 +158,16 @@ class TransformedMessage(MessageInterface):
         return self.base_message - other
 
     def project(
-        self, samples, log_weight_list, **_,
+        self, samples, log_weight_list, **kwargs,
     ):
+        # the samples live in the space of this message: the base message is
+        # fitted to their images in its own space
         return TransformedMessage(
-            self.base_message.project(samples, log_weight_list),
+            self.base_message.project(self._transform(samples), log_weight_list),
             *self.transforms,
             id_=self.id,
+            lower_limit=kwargs.get("lower_limit", self.lower_limit),
+            upper_limit=kwargs.get("upper_limit", self.upper_limit),
         )
 
     def kl(self, dist):
